@@ -146,7 +146,11 @@ func genHistory(r *rand.Rand, fullDelta bool, small bool, feat map[string]bool) 
 			var ms []hx.B
 			for i := 0; i < k; i++ {
 				m := genMsg(r, prev, feat, small)
-				prev = m[0]
+				if m[0] >= 0x80 && m[0] <= 0xEF {
+					prev = m[0] // last CHANNEL status: a same-status message after a meta/sysex/escape event is the interesting case
+				} else if prev != 0 {
+					feat["nonchannel_between"] = true
+				}
 				ms = append(ms, m)
 			}
 			d := genDelta(r, fullDelta)
@@ -171,6 +175,10 @@ func genHistory(r *rand.Rand, fullDelta bool, small bool, feat map[string]bool) 
 			h = append(h, Op{Op: "close", D: digits(genDelta(r, fullDelta))})
 		}
 		h = append(h, Op{Op: "smfadd"})
+		if r.Intn(6) == 0 { // an intermediate write (e.g. autosave) before more tracks are added
+			h = append(h, Op{Op: "write"})
+			feat["intermediate_write"] = true
+		}
 	}
 	for i := range h {
 		if h[i].D == nil {
